@@ -55,12 +55,16 @@ func init() {
 
 func genC08(g *h.G) {
 	gc := &genCtx{g: g, sc: loadTLSchema(), noSeed: map[string]bool{}, perType: map[string]int{}, tlbStats: map[string]*tlbStat{}}
+	gc.genFlags() // queued, emitted between the other lines
 	gc.genTL()
 	gc.genHelpers()
 	gc.genTLB()
 	gc.genTLBModel()
 	gc.genProofs()
 	gc.genABIStacks()
+	for len(gc.pendingFlags) > 0 {
+		gc.emitPendingFlag()
+	}
 	for k := range gc.noSeed {
 		g.Count("no_valid_seed:" + k)
 	}
